@@ -6,6 +6,9 @@ Driver handlers for property C03 and the DijkstraPred half of C05 (ops of `ops/c
   dijkstra_all       <wu-desc> <sources>        => panic | [v…] [[v d]…] [dist…]
   dijkstra_pred_tree <wu-desc> <sources>        => panic | [[p v]…] [pred…]
   dijkstra_pred_sp   <wu-desc> <sources> <tgt>  => panic | none | [path]
+  dijkstra_repoll    <wu-desc> <sources> <k>    => [v…] [after…] [[v d]…] [dist…] [dist…] nx [pred…] pn [pred…]
+      (state carried between calls: polls after `None`; `k` items then `distances()` twice then `next()`
+       on ONE `DijkstraDist`; `predecessors()`, `next()`, `predecessors()` on ONE `DijkstraPred`)
 
 `tgt` ∈ `[in [ids]] always never`.  `usize::MAX` is printed literally by the harness.
 
@@ -21,6 +24,35 @@ def distV : Option Int → V
   | some d => .i d
 
 def getO {α : Type} (l : List (Option α)) (i : Nat) : Option α := (l[i]?).getD none
+
+/-- Bellman-Ford rounds on an `Array` with early exit (same relaxation rule as `wdistB`, which is
+quadratic per round on lists); used as the oracle for orders above 60. -/
+def fastDist (g : WGraph) (S : List Nat) : List (Option Int) :=
+  let init : Array (Option Int) := S.foldl (fun d s => d.setIfInBounds s (some 0)) (Array.replicate g.n none)
+  let round (d : Array (Option Int)) : Array (Option Int) × Bool :=
+    (List.range g.n).foldl (fun (acc : Array (Option Int) × Bool) u =>
+      match acc with
+      | (arr, ch) =>
+        match arr.getD u none with
+        | none => (arr, ch)
+        | some du => (g.out u).foldl (fun (a : Array (Option Int) × Bool) vw =>
+            match a with
+            | (ar, c) =>
+              match ar.getD vw.1 none with
+              | none => (ar.setIfInBounds vw.1 (some (du + vw.2)), true)
+              | some dv => if du + vw.2 < dv then (ar.setIfInBounds vw.1 (some (du + vw.2)), true) else (ar, c))
+            (arr, ch)) (d, false)
+  let rec go (fuel : Nat) (d : Array (Option Int)) : Array (Option Int) :=
+    match fuel with
+    | 0 => d
+    | f+1 => match round d with
+      | (d', true) => go f d'
+      | (d', false) => d'
+  (go (g.n + 1) init).toList
+
+/-- The independent distances the oracles use. -/
+def oracleDist (g : WGraph) (S : List Nat) : List (Option Int) :=
+  if g.n ≤ 60 then (wdistB g S).1 else fastDist g S
 
 def countOf (xs : List Nat) (v : Nat) : Nat := (xs.filter (· == v)).length
 
@@ -72,7 +104,10 @@ def commonTags (d : GDesc) (S : List Nat) (wd : List (Option Int)) : List String
   [ sizeTag d.order, s!"src{min S.length 4}",
     if reach == d.order then "all-reachable" else if reach == 0 then "none-reachable" else "some-unreachable",
     if zero then "zero-weights" else "positive-weights",
-    if d.warcs.any (fun a => decide (a.2.2 > 9)) then "wide" else "narrow" ]
+    if d.warcs.any (fun a => decide (a.2.2 ≥ 1099511627776)) then "w>=2^40"
+    else if d.warcs.any (fun a => decide (a.2.2 > 9)) then "wide" else "narrow",
+    if wd.any (fun o => decide (o.getD 0 ≥ 9223372036854775807)) then "dist>=2^63-1"
+    else if wd.any (fun o => decide (o.getD 0 ≥ 4611686018427387904)) then "dist>=2^62" else "dist<2^62" ]
 
 def hAll : Handler := fun _ args obs =>
   match args with
@@ -80,12 +115,13 @@ def hAll : Handler := fun _ args obs =>
     let d ← parseW dv
     let S ← parseSources d.order sv
     let g := d.wgraph
-    let wd := (wdistB g S).1
-    let mIter := dijkstra g S
-    let mDist := dijkstraDist g S
-    let mDs := distances g S
+    let wd := oracleDist g S
+    let E := entries g (fun _ => none) S     -- `dijkstra`, `dijkstraDist`, `distances` are maps/folds of it
+    let mIter := E.map (·.v)
+    let mDist := E.map (fun e => (e.v, e.d))
+    let mDs := distancesOf g.n mDist
     let model : List V := [V.ofNats mIter, .l (mDist.map (fun p => .l [V.ofNat p.1, .i p.2])), .l (mDs.map distV)]
-    let stale := staleCount g S
+    let stale := if d.order ≤ 60 then staleCount g S else (if E.length < d.warcs.length then 1 else 0)
     let ties := (mDist.zip (mDist.drop 1)).any (fun p => p.1.2 == p.2.2)
     let tags := commonTags d S wd ++ [if stale > 0 then "superseded-entry" else "no-superseded", if ties then "ties" else "no-ties"]
     let nt := d.order ≥ 2 && !S.isEmpty && mIter.length ≥ 2
@@ -131,7 +167,7 @@ def hPredTree : Handler := fun _ args obs =>
     let d ← parseW dv
     let S ← parseSources d.order sv
     let g := d.wgraph
-    let wd := (wdistB g S).1
+    let wd := oracleDist g S
     let mItems := dijkstraPred g S
     let mPred := predecessors g S
     let model : List V := [.l (mItems.map (fun p => .l [V.ofOptNat p.1, V.ofNat p.2])), .l (mPred.map V.ofOptNat)]
@@ -174,7 +210,7 @@ def hPredSp : Handler := fun _ args obs =>
     let S ← parseSources d.order sv
     let isT ← parseTgt tv
     let g := d.wgraph
-    let wd := (wdistB g S).1
+    let wd := oracleDist g S
     let model : List V := match shortestPath g S isT with
       | .panic => [.a "panic"]
       | .ret none => [.a "none"]
@@ -210,7 +246,59 @@ def hPredSp : Handler := fun _ args obs =>
     pure (classify obs model propFail nt tags)
   | _ => none
 
+/-- State carried between calls.  Model: an exhausted iterator keeps returning `None` (`next` on
+an empty heap); `distances()` / `predecessors()` fold whatever the object still yields, so a second
+call returns the untouched `MAX` / `None` vector. -/
+def hRepoll : Handler := fun _ args obs =>
+  match args with
+  | [dv, sv, kv] => do
+    let d ← parseW dv
+    let S ← parseSources d.order sv
+    let k ← V.nat? kv
+    let g := d.wgraph
+    let wd := oracleDist g S
+    let E := entries g (fun _ => none) S
+    let items := E.map (fun e => (e.v, e.d))
+    let mPred := predecessors g S
+    let noneV := V.a "none"
+    let pairsV (l : List (Nat × Int)) : V := .l (l.map (fun p => .l [V.ofNat p.1, .i p.2]))
+    let model : List V :=
+      [ V.ofNats (E.map (·.v)), .l [noneV, noneV, noneV],
+        pairsV (items.take k), .l ((distancesOf g.n (items.drop k)).map distV),
+        .l ((distancesOf g.n []).map distV), noneV,
+        .l (mPred.map V.ofOptNat), noneV, .l ((predecessorsOf g.n []).map V.ofOptNat) ]
+    let tags := "repoll" :: commonTags d S wd ++ [if k == 0 then "k=0" else if k ≥ E.length then "k>=all" else "k-partial"]
+    let nt := d.order ≥ 2 && !S.isEmpty && E.length ≥ 2
+    let propFail : Option String :=
+      match obs with
+      | [it, .a "overrun"] =>
+        match V.listOf? V.nat? it with
+        | some it => (seqFail d.order wd it).map ("Dijkstra: " ++ ·) <|> some "Dijkstra never returns None"
+        | none => some "output-not-parsable"
+      | [it, after, first, d1, _, nx, p1, pn, _] =>
+        match V.listOf? V.nat? it, V.listOf? (V.pair? V.nat? V.int?) first, V.listOf? V.int? d1,
+              V.listOf? (V.opt? V.nat?) p1 with
+        | some it, some first, some d1, some p1 =>
+          firstSome [
+            (seqFail d.order wd it).map ("Dijkstra: " ++ ·),
+            if after == .l [noneV, noneV, noneV] then none
+            else some s!"Dijkstra yields {after} after it returned None (every reachable vertex was already yielded)",
+            (first.find? (fun p => getO wd p.1 != some p.2)).map
+              (fun p => s!"DijkstraDist: item ({p.1}, {p.2}) but minimum walk weight is {distV (getO wd p.1)}"),
+            -- vertices the object had not yielded yet must get their exact distance from distances()
+            ((List.range d.order).find? (fun v => !(first.any (·.1 == v)) &&
+                (d1[v]?).getD (-1) != (getO wd v).getD usizeMax)).map
+              (fun v => s!"distances() after {first.length} items: [{v}] = {(d1[v]?).getD (-1)}, minimum walk weight is {distV (getO wd v)}"),
+            if nx == noneV then none else some s!"DijkstraDist yields {nx} after distances() drained it",
+            predFail g S wd p1,
+            if pn == noneV then none else some s!"DijkstraPred yields {pn} after predecessors() drained it" ]
+        | _, _, _, _ => some "output-not-parsable"
+      | _ => some s!"unexpected-output {obs}"
+    pure (classify obs model propFail nt tags)
+  | _ => none
+
 def handlers : List (String × Handler) :=
-  [("dijkstra_all", hAll), ("dijkstra_pred_tree", hPredTree), ("dijkstra_pred_sp", hPredSp)]
+  [("dijkstra_all", hAll), ("dijkstra_pred_tree", hPredTree), ("dijkstra_pred_sp", hPredSp),
+   ("dijkstra_repoll", hRepoll)]
 
 end GraafVerif.Driver.H03
